@@ -471,8 +471,10 @@ def replay_differ(tier, seed, out):
     ref = {}
     diffs = []
     runs = 0
+    # every script also as the very first call of a fresh process (state consumed by earlier calls must not matter)
+    singles = [[i] for i in range(n)] + [[i, i] for i in (6, 7, 8) if i < n]
     for hs in seeds:
-        for hi, order in enumerate(histories if hs < 3 else histories[:1]):
+        for hi, order in enumerate((histories + singles) if hs == 0 else histories if hs < 3 else histories[:1]):
             env = dict(os.environ, PYTHONHASHSEED=str(hs))
             r = subprocess.run(["/venv/bin/python", "-c", REPLAY_PROG, src, json.dumps(CORPUS), json.dumps(order)],
                                capture_output=True, text=True, env=env, timeout=300)
